@@ -363,7 +363,7 @@ func checkC11(r *Result) {
 				}
 				return true
 			})
-			okShape := false
+			okShape, okDen := false, false
 			desc := ""
 			if base != nil {
 				for _, e := range base.Args {
@@ -372,6 +372,8 @@ func checkC11(r *Result) {
 							return a
 						}
 						switch {
+						case strings.HasPrefix(t.Op, "field:x/reporter/types.DelegationsAmounts.Total"):
+							return "total"
 						case strings.HasPrefix(t.Op, "field:x/reporter/types.TokenOriginInfo.Amount"):
 							return "origin"
 						case t.Op == "param:5:cosmossdk.io/math.Int":
@@ -383,11 +385,19 @@ func checkC11(r *Result) {
 					}}).Eval(e)
 					if c, m, ok := p.Single(); ok && c.Cmp(big.NewRat(1, 1)) == 0 && m["origin"] == 1 && m["amt"] == 1 && m["power"] == -1 && m["PR"] == -1 && len(m) == 4 {
 						okShape = true
-						desc = p.String()
+						desc = p.plain()
+					}
+					if c, m, ok := p.Single(); ok && c.Cmp(big.NewRat(1, 1)) == 0 && m["origin"] == 1 && m["amt"] == 1 && m["total"] == -1 && len(m) == 3 {
+						okShape, okDen = true, true
+						desc = p.plain()
 					}
 				}
 			}
 			r.check(okShape, "LIN-SLASH", "(x/reporter/keeper.Keeper).EscrowReporterStake # per-backer request = origin.Amount x amt / (power x PR)", P.Pos(undelegates[0].Pos()), "normal form of the proportional edge: "+desc)
+			// "in proportion to their contribution": the shares of all origins add up to amt only if the denominator is the sum of
+			// the origins, i.e. the snapshot's Total. power x PR is that sum rounded down to whole tokens: with a stake of
+			// 2.999999 tokens the shares add up to 1.5 amt and the last origin is given the negative rest
+			r.check(okDen, "LIN-SLASH", "(x/reporter/keeper.Keeper).EscrowReporterStake # the share's denominator is the sum of the origins (the snapshot's total)", P.Pos(undelegates[0].Pos()), "normal form of the proportional edge: "+desc)
 		}
 		// every origin of the snapshot is processed: each iteration decides the "last origin takes the rounding
 		// leftover" test, and skips the withdrawal only when the origin's final share is zero
